@@ -63,6 +63,8 @@ if __name__ == "__main__":
     for sid in ids:
         if not os.path.exists(os.path.join(V, "seeded", sid, "meta.json")):
             continue
+        if args[1] == "all" and os.path.exists(os.path.join(V, "seeded", sid, "result.json")) and "--force" not in sys.argv:
+            continue
         res = run(sid, tier, "--in-repo" in sys.argv)
         for p, r in res.items():
             print("%-28s %s %s exit=%d %ss %s" % (sid, p, "CAUGHT" if r["caught"] else "MISSED", r["exit"], r["wall_s"], r["violations"][:2]))
